@@ -71,6 +71,11 @@ def cases(rng, tier):
                 if ep in ("device_authorization", "token:client_credentials", "token:password"):
                     # the request also asks for a scope the server does not support: an unauthenticated request is still answered invalid_client
                     out.append({"op": "endpoint", "endpoint": ep, "header": h, "form": f, "bad_scope": True})
+    # the built-in grants with the permitted-method lists they SHIP with (no override in the integrator), in a process that has imported the whole library
+    for ep in SHIPPED:
+        for h in [None, "Basic " + b64(b"basic:sb"), "Basic " + b64(b"basic:no"), "Basic " + b64(b"post:sp"), "Basic " + b64(b"pub:")]:
+            for f in forms:
+                out.append({"op": "endpoint", "endpoint": ep, "header": h, "form": f})
     # histories on ONE server: registry changes between requests (secret rotation, method change, deletion)
     for how in ("basic", "post", "none"):
         out.append({"op": "history", "how": how})
@@ -188,8 +193,23 @@ def assert_history_line(c):
                                                     {"id": "pub", "jwt": False}, {"id": "both", "jwt": False}], "reqs": reqs}
 
 
-def make_server(framework=None, scopes_supported=None):
+# the documented defaults (docs/flask/2/grants.rst, docs/django/2/grants.rst; Props.C07.shipped_method_lists proves the regenerated table equals them)
+SHIPPED = {"shipped:client_credentials": ["client_secret_basic"], "shipped:password": ["client_secret_basic"], "shipped:refresh_token": ["client_secret_basic"],
+           "shipped:authorization_code": ["client_secret_basic", "client_secret_post"], "shipped:device_code": ["client_secret_basic", "client_secret_post", "none"]}
+
+
+def unwiden(srv):
+    """give every registered token grant back the TOKEN_ENDPOINT_AUTH_METHODS of the library class it derives from, as that class has it NOW"""
+    import authlib.oauth2.rfc8628, authlib.oauth2.rfc7523, authlib.oauth2.rfc7636, authlib.oidc.core.grants, authlib.oauth2.rfc9068, authlib.oauth2.rfc7591, authlib.oauth2.rfc7592  # noqa: F401
+    for i, (cls, ext) in enumerate(srv._token_grants):
+        lib = next(b for b in cls.__mro__ if b.__module__.startswith("authlib."))
+        srv._token_grants[i] = (type("Shipped" + cls.__name__, (cls,), {"TOKEN_ENDPOINT_AUTH_METHODS": lib.TOKEN_ENDPOINT_AUTH_METHODS}), ext)
+
+
+def make_server(framework=None, scopes_supported=None, shipped=False):
     store, srv, rp = ms.build(oidc=False, framework=framework, scopes_supported=scopes_supported)
+    if shipped:
+        unwiden(srv)
     for cid, sec, method in CLIENTS:
         store.clients[cid] = Client(cid, sec, ["https://c/cb"], "a b", ms.ALL_GRANT_TYPES, ms.ALL_RESPONSE_TYPES, method,
                                     extra={"public_key": R.pem_public(R.keys()["rsa1"])} if cid == "pkjwt" else None)
@@ -212,7 +232,7 @@ def mk_request(c, extra_form=None, uri="https://as.example/ep"):
 
 def impl(c):
     ms.install_clock()
-    store, srv = make_server(scopes_supported=["a", "b"] if c.get("bad_scope") else None)
+    store, srv = make_server(scopes_supported=["a", "b"] if c.get("bad_scope") else None, shipped=str(c.get("endpoint", "")).startswith("shipped:"))
     if c["op"] == "auth":
         req = mk_request(c)
         try:
@@ -225,7 +245,7 @@ def impl(c):
     if c["op"] == "endpoint":
         out = impl_endpoint(c, store, srv)
         for fw in ("flask", "django"):
-            st2, srv2 = make_server(fw, ["a", "b"] if c.get("bad_scope") else None)
+            st2, srv2 = make_server(fw, ["a", "b"] if c.get("bad_scope") else None, shipped=c["endpoint"].startswith("shipped:"))
             o = impl_endpoint(c, st2, srv2)
             if o != out and "transport_refused" not in o:
                 out["differs:" + fw] = o
@@ -247,14 +267,14 @@ def impl_endpoint(c, store, srv):
     ep = c["endpoint"]
     before = json.dumps(store.snapshot(), sort_keys=True)
     headers = {} if c["header"] is None else {"Authorization": c["header"]}
-    form = dict(EP_FORM[ep]); form.update(c["form"])
+    form = dict(EP_FORM[ep.replace("shipped:", "token:")]); form.update(c["form"])
     if c.get("bad_scope"):
         form["scope"] = "zzz"
     if c.get("bad_hint"):
         form["token_type_hint"] = "bogus_token_type"
     req = Req("POST", "https://as.example/ep", form, headers)
     try:
-        if ep.startswith("token"):
+        if ep.startswith("token") or ep.startswith("shipped:"):
             r = ms.fw_call(srv, req, "create_token_response")
         else:
             r = ms.fw_call(srv, req, "create_endpoint_response", ep)
@@ -478,9 +498,9 @@ def oracle_core(c, out):
                    "device_authorization": ["client_secret_basic", "client_secret_post", "none"], "token:authorization_code": ["client_secret_basic", "client_secret_post", "none"],
                    "token:refresh_token": ["client_secret_basic", "client_secret_post", "none"], "token:client_credentials": ["client_secret_basic", "client_secret_post"],
                    "token:password": ["client_secret_basic", "client_secret_post", "none"], "token:device_code": ["client_secret_basic", "client_secret_post", "none"],
-                   "token": ["client_secret_basic", "client_secret_post"]}[ep]
+                   "token": ["client_secret_basic", "client_secret_post"], **SHIPPED}[ep]
         cc = dict(c, place="form")
-        allowed = may_authenticate(cc, methods, "token" if ep.startswith("token") else ep) | LENIENT
+        allowed = may_authenticate(cc, methods, "token" if ep.startswith("token") or ep.startswith("shipped:") else ep) | LENIENT
         if not allowed:
             if out["error"] != "invalid_client":
                 bad(f"{ep}: request without valid client authentication answered {out['status']} {out['error']}", kind="not-invalid-client", endpoint=ep)
